@@ -73,6 +73,7 @@ type delivery struct {
 	Sent      time.Duration `json:"sent"`
 	T0        time.Duration `json:"handle_start"`
 	T1        time.Duration `json:"handle_end"`
+	Entered   bool          `json:"entered"`
 	Returned  bool          `json:"returned"`
 	Err       string        `json:"err,omitempty"`
 }
@@ -94,6 +95,7 @@ type bus struct {
 	timers   []*time.Timer
 	stopped  bool
 	dropped  int
+	stuck    int
 	wg       sync.WaitGroup
 }
 
@@ -125,6 +127,11 @@ func (c *nodeCtl) PublishControl(data []byte, nodeID, _ string) error {
 	return c.b.publish(c.idx, append([]byte(nil), data...), nodeID)
 }
 
+// spinMax bounds the busy-wait (yields, no sleeping) for HandleControl to return. A call
+// that blocks on a lock-protected channel send freezes the bubble's clock, so "returned
+// at the same virtual instant" can only be observed by not letting time pass at all.
+const spinMax = 3_000_000
+
 func (b *bus) handle(to int, m msg) {
 	b.mu.Lock()
 	h := b.handlers[to]
@@ -134,16 +141,38 @@ func (b *bus) handle(to int, m msg) {
 	}
 	t0 := b.x.w.Now()
 	b.mu.Lock()
-	m.d.T0 = t0
+	m.d.T0, m.d.Entered = t0, true
 	b.mu.Unlock()
-	err := h.HandleControl(m.data)
-	t1 := b.x.w.Now()
-	b.mu.Lock()
-	m.d.T1, m.d.Returned = t1, true
-	if err != nil {
-		m.d.Err = err.Error()
+	done := make(chan struct{})
+	go func() {
+		defer close(done)
+		err := h.HandleControl(m.data)
+		t1 := b.x.w.Now()
+		b.mu.Lock()
+		m.d.T1, m.d.Returned = t1, true
+		if err != nil {
+			m.d.Err = err.Error()
+		}
+		b.mu.Unlock()
+	}()
+	returned := func() bool {
+		select {
+		case <-done:
+			return true
+		default:
+			return false
+		}
 	}
-	b.mu.Unlock()
+	if !kit.SpinUntil(returned, spinMax) {
+		if m.d.Kind == "response" {
+			b.mu.Lock()
+			b.stuck++
+			d := *m.d
+			b.mu.Unlock()
+			b.x.c.Violation("c41-handle-control-blocked", fmt.Sprintf("HandleControl with a survey response (survey %s, responder %d, fault %q, copy %d) entered at %s did not return although nothing else could run (%d yields)", d.Token, d.Responder, d.Fault, d.Copy, d.T0, spinMax), d)
+		}
+		<-done
+	}
 }
 
 // send hands one copy to node `to` after delay (0 = now), never on the publisher's goroutine.
@@ -451,9 +480,12 @@ func (x *sworld) evaluate(sp *surveyPlan, log []*delivery) string {
 				concurrent = append(concurrent, o)
 			}
 		}
+		sp.mu.Lock()
+		cbs := fmt.Sprint(sp.localCb)
+		sp.mu.Unlock()
 		return map[string]any{"survey": sp, "returned_at": sp.t1.String(), "started_at": sp.t0.String(), "err": fmt.Sprint(sp.err), "result": keys,
 			"deliveries": mine, "other_surveys_of_issuer": concurrent, "nodes": len(x.nodes), "bus_parallel": x.b.parallel,
-			"handler_callbacks": fmt.Sprint(sp.localCb)}
+			"handler_callbacks": cbs}
 	}
 	if !sp.done {
 		c.Violation("c41-survey-never-returned", fmt.Sprintf("survey %s of node %d did not return (deadline %s)", sp.Token, sp.Issuer, sp.deadline()), detail())
@@ -668,7 +700,7 @@ func runCase(c *kit.Case) {
 				}
 			}
 		}
-		if d.T0 != 0 && !d.Returned {
+		if d.Entered && !d.Returned {
 			blocked = true
 			c.Violation("c41-handle-control-blocked", fmt.Sprintf("HandleControl with a survey response (survey %s, responder %d, fault %q, copy %d) entered at %s and had not returned %s later", d.Token, d.Responder, d.Fault, d.Copy, d.T0, x.w.Now()-d.T0), d)
 		} else if d.Returned && d.T1 != d.T0 {
@@ -679,11 +711,13 @@ func runCase(c *kit.Case) {
 	var sigs []string
 	for _, sp := range x.surveys {
 		// requests reach only addressed nodes
+		sp.mu.Lock()
 		for j, k := range sp.handled {
 			if sp.Resp[j] == nil && k > 0 {
 				c.Violation("c41-request-handled-by-unaddressed-node", fmt.Sprintf("survey %s addressed to node %d was handled by node %d", sp.Token, sp.To, j), nil)
 			}
 		}
+		sp.mu.Unlock()
 		out := x.evaluate(sp, log)
 		kind := "all"
 		if sp.To == sp.Issuer {
